@@ -398,4 +398,79 @@ theorem push_m2_nonneg (fns : Fns Rat) (d : Dist Rat) (v : Rat) (h : 0 ≤ d.m2)
     · exact Rat.add_nonneg h hterm
     · exact hterm
 
+/-! the documented rules of the team compositions -/
+
+/-- `argMaxVotes` picks a class with the largest number of votes -/
+theorem argMax_fold_max (votes : List Nat) (l : List Nat) :
+    ∀ b, (∀ j ∈ l, 1 ≤ j ∨ votes.getD j 0 ≤ votes.getD b 0) →
+      (∀ j ∈ l, votes.getD j 0 ≤ votes.getD (l.foldl (fun m i => if 1 ≤ i ∧ votes.getD i 0 > votes.getD m 0 then i else m) b) 0) ∧
+      votes.getD b 0 ≤ votes.getD (l.foldl (fun m i => if 1 ≤ i ∧ votes.getD i 0 > votes.getD m 0 then i else m) b) 0 := by
+  induction l with
+  | nil => intro b _; simp
+  | cons j rest ih =>
+    intro b hb
+    simp only [List.foldl_cons, List.mem_cons, forall_eq_or_imp]
+    have hj := hb j (by simp)
+    by_cases hc : 1 ≤ j ∧ votes.getD j 0 > votes.getD b 0
+    · simp only [hc, and_self, if_true]
+      have h := ih j (fun x hx => by
+        rcases hb x (by simp [hx]) with h1 | h1
+        · exact Or.inl h1
+        · exact Or.inr (by omega))
+      exact ⟨⟨h.2, h.1⟩, by have := h.2; omega⟩
+    · simp only [hc, if_false]
+      have h := ih b (fun x hx => hb x (by simp [hx]))
+      refine ⟨⟨?_, h.1⟩, h.2⟩
+      rcases hj with h1 | h1
+      · have : votes.getD j 0 ≤ votes.getD b 0 := by
+          have : ¬ votes.getD j 0 > votes.getD b 0 := fun hh => hc ⟨h1, hh⟩
+          omega
+        have := h.2; omega
+      · have := h.2; omega
+
+theorem argMaxVotes_max (votes : List Nat) (j : Nat) : votes.getD j 0 ≤ votes.getD (argMaxVotes votes) 0 := by
+  unfold argMaxVotes
+  have h := argMax_fold_max votes (List.range votes.length) 0 (by
+    intro x _
+    by_cases hx : 1 ≤ x
+    · exact Or.inl hx
+    · have : x = 0 := by omega
+      subst this; exact Or.inr (Nat.le_refl _))
+  by_cases hj : j < votes.length
+  · exact h.1 j (by simpa using hj)
+  · have : votes.getD j 0 = 0 := by
+      rw [List.getD_eq_getElem?_getD, List.getElem?_eq_none (by omega)]; rfl
+    omega
+
+/-- winner takes all: no member is surer than the winner (exact arithmetic) -/
+theorem wta_fold_max (rest : List (Nat × Rat)) :
+    ∀ t : Nat × Rat, t.2 ≤ (rest.foldl (fun best r => if lt best.2 r.2 then r else best) t).2 ∧
+      ∀ r ∈ rest, r.2 ≤ (rest.foldl (fun best r => if lt best.2 r.2 then r else best) t).2 := by
+  induction rest with
+  | nil => intro t; simp
+  | cons r rs ih =>
+    intro t
+    simp only [List.foldl_cons]
+    by_cases h : lt t.2 r.2 = true
+    · simp only [h, if_true]
+      have hlt : t.2 < r.2 := by simpa using h
+      have := ih r
+      refine ⟨Rat.le_trans (Rat.le_of_lt hlt) this.1, ?_⟩
+      intro q hq
+      simp only [List.mem_cons] at hq
+      rcases hq with rfl | hq
+      · exact this.1
+      · exact this.2 q hq
+    · simp only [h]
+      have hle : r.2 ≤ t.2 := by
+        have : ¬ t.2 < r.2 := by simpa using h
+        exact Rat.not_lt.mp this
+      have := ih t
+      refine ⟨this.1, ?_⟩
+      intro q hq
+      simp only [List.mem_cons] at hq
+      rcases hq with rfl | hq
+      · exact Rat.le_trans hle this.1
+      · exact this.2 q hq
+
 end Vita.C08
